@@ -16,7 +16,8 @@ R15b share check: every comparison of a Pedersen commitment g^s h^s' with the pr
 R15c threshold: a party with more than t complaints (counter > t, exactly t as bound) is put on
      the complaint list,
 R15d own share: the share and its companion are the sums modulo q, over the members of QUAL, of
-     the sub-shares received."""
+     the sub-shares received,
+R15e every std::unique on a complaint list directly follows a std::sort of that list."""
 from ..facts import AnalysisBroken
 from .c01 import plain, phi_sources
 
@@ -203,10 +204,81 @@ def run(ctx):
                             okd = True
             (ctx.ok if okd else ctx.bad)('R15d', key, '%s = sum over QUAL of the received sub-shares, modulo q' % mname if okd else
                                          '%s is not accumulated as 0 + sum over the members of QUAL of the received sub-shares modulo q' % mname, f)
+    r15e(ctx)
     ctx.floor('R15a', na, 4)
     ctx.floor('R15b', nb, 8)
     ctx.floor('R15c', nc, 4)
     ctx.floor('R15d', nd, 8)
+
+
+def r15e(ctx):
+    """complaint lists are made duplicate-free by std::unique, which removes *adjacent* duplicates
+    only: each such call must directly follow a std::sort of the same container (nothing appended
+    in between).  A list like [5, 6, 5, 6] otherwise keeps its duplicates; the party then broadcasts
+    a complaint twice, which the receivers treat as misbehaviour of the complainer, and counts its
+    own complaints twice against the threshold"""
+    from ..facts import walk
+    prog = ctx.prog
+    files = ('GennaroJareckiKrawczykRabinDKG.cc', 'CanettiGennaroJareckiKrawczykRabinASTC.cc', 'JareckiLysyanskayaASTC.cc', 'PedersenVSS.cc')
+
+    def strip(x):
+        while isinstance(x, dict) and (x.get('k') == 'cast' or (x.get('k') == 'ctor' and len(x.get('a', [])) == 1)):
+            x = x['e'] if x.get('k') == 'cast' else x['a'][0]
+        return x
+
+    def container(call):
+        a0 = strip(call['a'][0]) if call.get('a') else None
+        if isinstance(a0, dict) and a0.get('k') == 'mcall' and a0['f'].split('::')[-1] in ('begin',):
+            o = strip(a0.get('o'))
+            if isinstance(o, dict) and o.get('k') == 'var':
+                return ('v', o['id'], o['n'])
+            if isinstance(o, dict) and o.get('k') == 'mem':
+                return ('m', o['n'])
+        return None
+
+    def calls(stmt, name):
+        return [e for e in walk(stmt) if e.get('k') == 'call' and e.get('f', '').split('::')[-1] == name and e.get('f', '').startswith('std::')]
+
+    def mutates(stmt, c):
+        for e in walk(stmt):
+            if e.get('k') == 'mcall' and e['f'].split('::')[-1] in ('push_back', 'insert', 'emplace_back', 'assign', 'swap'):
+                o = strip(e.get('o'))
+                if isinstance(o, dict) and ((o.get('k') == 'var' and c[0] == 'v' and o['id'] == c[1]) or (o.get('k') == 'mem' and c[0] == 'm' and o['n'] == c[1])):
+                    return True
+        return False
+    n = 0
+    for k, f in sorted(prog.funcs.items(), key=lambda kv: (kv[1]['q'], kv[0])):
+        if not f.get('body') or not f['file'].endswith(files):
+            continue
+        occ = 0
+        for blk in walk(f['body']):
+            if blk.get('k') != 'block':
+                continue
+            stmts = blk['s']
+            for i, st_ in enumerate(stmts):
+                if st_.get('k') in ('block', 'if', 'for', 'while', 'do', 'try', 'switch'):
+                    continue        # calls inside nested statements are found when their own block is visited
+                for u in calls(st_, 'unique'):
+                    c = container(u)
+                    if c is None:
+                        continue
+                    occ += 1
+                    n += 1
+                    key = 'R15e:%s:%s#%d' % (f['q'], c[-1], occ)
+                    okv = None
+                    for j in range(i - 1, -1, -1):
+                        if any(container(s_) == c for s_ in calls(stmts[j], 'sort')):
+                            okv = True
+                            break
+                        if mutates(stmts[j], c):
+                            okv = False
+                            break
+                    if okv:
+                        ctx.ok('R15e', key, 'std::unique follows a std::sort of the same list', f, line=u.get('l'))
+                    else:
+                        ctx.bad('R15e', key, 'std::unique is applied to %s without a preceding std::sort of it: only adjacent duplicates are removed, the list can keep '
+                                'duplicate complaints (broadcast twice, counted twice)' % c[-1], f, line=u.get('l'))
+    ctx.floor('R15e', n, 15)
 
 
 EXPLANATION = ("Local rules of the joint sharing phase of the four joint verifiable secret sharings, decided by must-facts and must-pass-through on the CFG: "
